@@ -38,3 +38,45 @@ def pw_elif(x, lo, hi, k):
         return k * hi
     else:
         return k * x
+
+
+# both branches of a plain if/else re-bind / read a name bound before the `if` (each branch must see the value from
+# BEFORE the if, never what the other branch bound)
+
+def pw_rebind(x, thr, k):
+    v = k * x
+    if x > thr:
+        v = v * 2.0
+    else:
+        v = v + 1.0
+    return v
+
+
+def pw_rebind_arg(x, thr, k):
+    if x >= thr:
+        k = k * 2.0
+        return k * x
+    else:
+        return k * x + 1.0
+
+
+def pw_rebind_tmp(x, lo, hi, k):
+    s = k
+    if x < lo:
+        s = s * x
+        return s
+    else:
+        t = s + hi
+        return t * x
+
+
+def pw_rebind_elif(x, lo, hi, k):
+    v = k
+    if x < lo:
+        v = v * 4.0
+        return v
+    elif x < hi:
+        return v * x
+    else:
+        v = v + 1.0
+        return v * hi
